@@ -42,6 +42,28 @@ Theorem C12_rx1_result_defined_refuted : forall name dr off, In (name, dr, off) 
 Proof. exact rx1_known_refuted. Qed.
 Print Assumptions C12_rx1_result_defined_refuted.
 
+(* "invalid data-rates or offsets yield an error": an accepted uplink data-rate is a data-rate of
+   the band (an index GetDataRate rejects is rejected here too) ... *)
+Theorem C12_rx1_uplink_dr_defined : forall c, In c band_configs -> forall dr off r : Z,
+  get_rx1_dr c dr off = Ok r -> dr_defined (c_tab c) dr = true.
+Proof. exact rx1_uplink_dr_defined. Qed.
+Print Assumptions C12_rx1_uplink_dr_defined.
+
+(* ... and an accepted offset is one the region defines (0..3 US915; 0..7 AS923, IN865; 0..5
+   elsewhere) - except the recorded KR920 cells (offsets 6 and 7), each proved to be accepted *)
+Theorem C12_rx1_offset_in_range : forall c, In c band_configs ->
+  forall reg, region_of (c_name c) = Some reg -> forall dr off r : Z,
+  get_rx1_dr c dr off = Ok r ->
+  off <= spec_max_rx1_offset reg \/ In (c_name c, dr, off) c12_known_offset_cells.
+Proof. exact rx1_offset_in_range. Qed.
+Print Assumptions C12_rx1_offset_in_range.
+
+Theorem C12_rx1_offset_in_range_refuted : forall name dr off, In (name, dr, off) c12_known_offset_cells ->
+  exists c reg r, In c band_configs /\ c_name c = name /\ region_of name = Some reg
+                  /\ off > spec_max_rx1_offset reg /\ get_rx1_dr c dr off = Ok r.
+Proof. exact rx1_offset_known_refuted. Qed.
+Print Assumptions C12_rx1_offset_in_range_refuted.
+
 (* where the region defines the RX1 data-rate by a formula - max(DR - offset, floor)
    with the dwell-time floor for AS923; min(13, max(8, DR + 10|8 - offset)) for
    US915|AU915 - the result equals it (domain and value: Rx1Spec.spec_rx1_formula) *)
@@ -125,6 +147,20 @@ Theorem C12_ping_slot : forall c, In c band_configs -> forall reg, region_of (c_
   get_ping_slot_frequency c devaddr beacon_ns = Ok (spec_ping_slot reg devaddr beacon_ns).
 Proof. exact ping_slot. Qed.
 Print Assumptions C12_ping_slot.
+
+(* ... and for EVERY beacon time, i.e. every signed 64-bit duration and beyond: never a panic;
+   before the GPS epoch the hopping regions answer with an error, the fixed-frequency regions
+   with their frequency ([ping_slot_any_ok]) *)
+Theorem C12_ping_slot_any_time : forall c, In c band_configs -> forall reg, region_of (c_name c) = Some reg ->
+  forall devaddr beacon_ns : Z, 0 <= devaddr ->
+  ping_slot_any_ok reg devaddr beacon_ns (get_ping_slot_frequency c devaddr beacon_ns) = true.
+Proof. exact ping_slot_any_time. Qed.
+Print Assumptions C12_ping_slot_any_time.
+
+Theorem C12_ping_slot_no_panic : forall c, In c band_configs -> forall devaddr beacon_ns : Z, 0 <= devaddr ->
+  get_ping_slot_frequency c devaddr beacon_ns <> Panic.
+Proof. exact ping_slot_no_panic. Qed.
+Print Assumptions C12_ping_slot_no_panic.
 
 (* RX2 defaults: the model of GetDefaults equals what the live code returned to the
    dumper, equals the Regional Parameters values, and the RX2 data-rate exists for downlink *)
